@@ -326,6 +326,10 @@ class SArr:
     def copy(self):
         return SArr(self._shape, self._get, self.sort)
 
+    def round(self, decimals=0):
+        """elementwise rounding as an uninterpreted function of the element (idempotent-by-name)."""
+        return SArr(self._shape, lambda idx, s=self, d=decimals: tm.app("round%d" % int(d), REAL, tm.to_real(s._get(idx))), REAL)
+
     def astype(self, dtype, **kw):
         return self
 
